@@ -1,25 +1,26 @@
 #!/bin/bash
-# usage: harness/seedcampaign.sh [tier] [name-glob]  -- every stored seeded change vs its property's check, on a scratch copy of /repo.
-# Writes seeded/RESULTS.json.  Evidence files are overwritten by these runs: re-run the checks on the clean tree afterwards.
+# usage: harness/seedcampaign.sh [tier] [name-glob] [jobs]  -- every stored seeded change vs its property's check, each on a scratch copy of
+# /repo/src with the patch applied, using a PRIVATE copy of the Lean project and a private output directory (so the generated files and the
+# evidence of the real tree are not disturbed).  Writes seeded/RESULTS.json.
 cd "$(dirname "$0")/.."
-TIER=${1:-quick}; GLOB=${2:-*}
-OUT=seeded/RESULTS.json
-echo "{" > $OUT.tmp
-first=1
-for d in seeded/$GLOB/; do
-  n=$(basename "$d"); P=${n%%-*}
-  [ -f "$d/patch.diff" ] || continue
-  D=$(mktemp -d /tmp/wgseed_XXXX)
-  rsync -a --exclude .git /repo/src "$D"/
-  if ! (cd "$D" && patch -p1 -s < "$(readlink -f $d/patch.diff)"); then echo "$n: PATCH FAILED"; rm -rf "$D"; continue; fi
-  log=$(WALLGO_REPO="$D" ./check "$P" --tier "$TIER" 2>&1); rc=$?
-  rm -rf "$D"
+export TIER=${1:-quick}; GLOB=${2:-*}; J=${3:-3}
+export CAMP=$(mktemp -d /tmp/wgcamp_XXXX)
+one() {
+  d=$1; n=$(basename "$d"); P=${n%%-*}
+  W=$CAMP/$n; mkdir -p $W/out
+  PATCH=$(readlink -f $d/patch.diff)
+  rsync -a --exclude .git /repo/src "$W"/
+  if ! (cd "$W" && patch -p1 -s < "$PATCH"); then echo "$n: PATCH FAILED" > $W/result; return; fi
+  rsync -a lean/ $W/lean/
+  log=$(WALLGO_REPO="$W" VERIF_LEAN=$W/lean VERIF_OUT=$W/out ./check "$P" --tier "$TIER" 2>&1); rc=$?
   nviol=$(echo "$log" | grep -c "^VIOLATION")
   nfound=$(echo "$log" | grep "^VIOLATION" | grep -vc "no-failing-input-found")
   obl=$(echo "$log" | grep -o "obligations [0-9]*/[0-9]*" | tail -1 | cut -d' ' -f2)
+  printf ' "%s": {"property": "%s", "tier": "%s", "exit": %d, "violation_lines": %d, "with_failing_input": %d, "obligations": "%s"}\n' "$n" "$P" "$TIER" $rc $nviol $nfound "$obl" > $W/result
   echo "$n: exit=$rc violations=$nviol with-failing-input=$nfound obligations=$obl"
-  [ $first = 1 ] || echo "," >> $OUT.tmp; first=0
-  printf ' "%s": {"property": "%s", "tier": "%s", "exit": %d, "violation_lines": %d, "with_failing_input": %d, "obligations": "%s"}' "$n" "$P" "$TIER" $rc $nviol $nfound "$obl" >> $OUT.tmp
-done
-echo "" >> $OUT.tmp; echo "}" >> $OUT.tmp; mv $OUT.tmp $OUT
-/venv/bin/python harness/py2lean/gen.py > /dev/null
+  rm -rf $W/src $W/lean $W/out
+}
+export -f one
+ls -d seeded/$GLOB/ | xargs -P $J -I{} bash -c "one {}"
+(echo "{"; cat $CAMP/*/result | sed '$!s/$/,/'; echo; echo "}") > seeded/RESULTS.json
+rm -rf $CAMP
